@@ -57,14 +57,69 @@ def to_lib(K, naming='int', how=0, containers='list'):
         V, E = set(V), set(E)
     elif containers == 'tuple':
         V, E = tuple(V), tuple(E)
+    # initial states: none declared, one (often leaving other states unreachable from it), several, all.
+    # No checker's answer depends on them: modelcheck returns EVERY state that satisfies the formula.
+    n = K['n']
+    S0 = {0: None, 1: [nm(n - 1)], 2: [nm(0)], 3: None, 4: [nm(i) for i in range(n)],
+          5: [nm(0), nm(n // 2)]}[how] if n else None
+    if containers == 'set' and S0 is not None:
+        S0 = set(S0)
+    elif containers == 'tuple' and S0 is not None:
+        S0 = tuple(S0)
     try:
-        return Kripke(S=V, R=E, L=L)
+        if S0 is None:
+            return Kripke(S=V, R=E, L=L)
+        return Kripke(S=V, S0=S0, R=E, L=L)
     except Exception as e:
         from . import core
         raise core.Refused(core.Failure('build', {'K': K, 'naming': naming, 'how': how, 'containers': containers},
                                         'Kripke(S, R, L) builds the total structure',
                                         'raised %s: %s' % (type(e).__name__, str(e)[:200]),
                                         'S=%r R=%r' % (V, E)))
+
+
+BIG_SHAPES = ['timer', 'countdown', 'ring', 'lollipop', 'ladder', 'tree', 'two-rings', 'fan']
+
+
+def big_structure(shape, N):
+    """Large structures of a simple shape over atoms busy/done (states 0..N): counters, timers, rings,
+    trees.  Their point is SIZE: thousands of states, chains as long as the structure."""
+    n = N + 1
+    edges = []
+    done = set([N])
+    if shape == 'timer':
+        edges = [(i, i + 1) for i in range(N)] + [(N, N)]
+    elif shape == 'countdown':
+        edges = [(i, i - 1) for i in range(1, n)] + [(0, 0)]
+        done = set([0])
+    elif shape == 'ring':
+        edges = [(i, (i + 1) % n) for i in range(n)]
+    elif shape == 'lollipop':
+        h = N // 2
+        edges = [(i, i + 1) for i in range(N)] + [(N, h)]
+    elif shape == 'ladder':
+        edges = [(i, i + 1) for i in range(N)] + [(i, i) for i in range(0, n, 3)] + [(N, N)]
+    elif shape == 'tree':
+        for i in range(n):
+            kids = [k for k in (2 * i + 1, 2 * i + 2) if k < n]
+            edges += [(i, k) for k in kids] or [(i, i)]
+        done = set(i for i in range(n) if 2 * i + 1 >= n and i % 2)
+    elif shape == 'two-rings':
+        h = N // 2
+        edges = [(i, i + 1) for i in range(h)] + [(h, 0)] + [(0, h + 1)] + [(i, i + 1) for i in range(h + 1, N)] + [(N, 0)]
+    elif shape == 'fan':
+        edges = [(0, i) for i in range(1, n)] + [(i, i + 1) for i in range(1, N)] + [(N, N)]
+    else:
+        raise ValueError(shape)
+    labels = [['done'] if i in done else ['busy'] for i in range(n)]
+    return {'n': n, 'edges': sorted([list(e) for e in set(edges)]), 'labels': labels}
+
+
+def rename_labels(K, m):
+    """K with its atoms spelled as the map says (see fm.ATOM_MAPS)."""
+    if not m:
+        return K
+    return dict(K, labels=[sorted(m.get(a, a) for a in l) for l in K['labels']])
 
 
 def name_of(naming):
